@@ -212,7 +212,11 @@ func runC18Case(root, probe string, entries []c18Entry, tag string, res *ev.Resu
 	stop := func() {
 		if !stopped {
 			stopped = true
-			rt.Stop()
+			d := make(chan struct{})
+			go func() { defer close(d); rt.Stop() }()
+			if rig.Await(d, 10*time.Second, 30*time.Second) == "hang" {
+				viol("hang/stop", "Adaptation.Stop did not return; goroutines:\n"+nriStacks())
+			}
 		}
 	}
 	defer stop()
